@@ -20,7 +20,8 @@ RULE = ("Host H (real Zeroconf: 1..2 registered services, an active browser, a s
         "names with corrupted fields, hostile compression graphs (chains to 4400 hops, cycles, fan-in), labels of invalid UTF-8 "
         "that expand beyond 63 bytes when echoed, TC-flagged garbage, datagrams of 8967..12000 bytes - from port 5353 and from "
         "legacy ports, as multicast and unicast deliveries - interleaved with valid traffic and clock advances of 0 ms..20 s. "
-        "Monitors: nothing reaches the event-loop exception handler (BaseException included); an oversized datagram changes "
+        "Monitors: nothing reaches the event-loop exception handler (BaseException included) and the lookups running in the "
+        "background never raise; an oversized datagram changes "
         "neither cache, registry, question history nor the wire; afterwards canary 1 (a fresh PTR query) is answered with H's "
         "PTR within 1.4 s, canary 2 (a second real instance announcing a brand-new service) reaches H's browser as Added and canary 3 "
         "(a service announced, withdrawn by a goodbye alone or mixed with new/refreshed/flush records in one datagram, and "
@@ -39,7 +40,8 @@ def floors(tier):
     q = tier == "quick"
     return {"c15.no_escape": 80000 if q else 10000000, "c15.oversize_ignored": 3000 if q else 400000, "c15.canary_query": 1000 if q else 100000, "c15.canary_browse": 1000 if q else 100000,
             "c15.canary_reannounce": 1000 if q else 100000, "c15.canary_refresh": 1000 if q else 100000,
-            "c15.canary_repeat_after_junk": 1000 if q else 100000, "c15.canary_preempted": 1000 if q else 100000}
+            "c15.canary_repeat_after_junk": 1000 if q else 100000, "c15.canary_preempted": 1000 if q else 100000,
+            "c15.lookup_contained": 20000 if q else 2000000}
 
 
 def plan(tier, seed):
@@ -185,16 +187,22 @@ def run_stream(res: Result, seed: int) -> None:
                 await t
             browser = AsyncServiceBrowser(zc, T2, listener=L())
             stop = {"flag": False}
+            lookup_raised: List[str] = []
 
             async def lookup_loop():
                 k = 0
                 while not stop["flag"]:
                     k += 1
                     info = AsyncServiceInfo(T2, "ghost%d.%s" % (k % 3, T2))
+                    res.mon("c15.lookup_contained")
                     try:
                         await info.async_request(zc, 3000)
-                    except Exception as e:  # noqa - raised to the caller of the lookup, not into the loop; counted, not judged here
-                        res.obs("lookup_raised_%s" % type(e).__name__)
+                    except Exception as e:  # noqa - hostile records must not turn a lookup in progress into an exception: in an
+                        # application this is a task of its own, i.e. the exception ends up in the loop's exception handler
+                        if not lookup_raised:
+                            viol("c15.no_escape", "lookup_in_progress_raised", "AsyncServiceInfo.async_request for ghost%d raised %r while the stream was being "
+                                 "delivered" % (k % 3, e), exc_type=type(e).__name__)
+                        lookup_raised.append(type(e).__name__)
                     await sim.sleep_ms(50)     # (a lookup satisfied from the cache returns at once)
 
             lt = asyncio.ensure_future(lookup_loop())
